@@ -15,6 +15,7 @@ import (
 	"fmt"
 	"net/http"
 	"net/http/httptest"
+	"net/url"
 	"os"
 	"path/filepath"
 	"strings"
@@ -671,6 +672,14 @@ func main() {
 	}
 	// (c) kick
 	runKick(r)
+	// (f) HLS sub-session mode: a session id obtained for one stream is not a credential for anything
+	nsub := 0
+	for _, override := range []bool{false, true} {
+		for _, first := range []string{"/hls/a.m3u8", "/hls/a/playlist.m3u8"} {
+			nsub += runHlsSubSession(r, override, first)
+		}
+	}
+	r.Cov("hls_sub_session_requests", nsub)
 	r.AddStates(int64(len(acs) + len(rcs) + len(paths)))
 	r.AddTransitions(int64(len(acs)*3 + len(rcs)*4 + len(paths)))
 	r.AddTraces(int64(len(acs) + len(rcs) + len(paths)))
@@ -731,4 +740,75 @@ func runKick(r *vk.Run) {
 		r.Violation("blacklist/other-address", "another address lost access", "blacklist")
 	}
 	r.Class("blacklist")
+}
+
+// runHlsSubSession: with hls.sub_session_hash_key set, the first authorised playlist request of a client
+// is answered with a redirect that carries a session_id; later requests carry it. Whatever session_id a
+// request carries, a playlist is returned if and only if the request's URL carries the right secret
+// for THAT stream.
+func runHlsSubSession(r *vk.Run, override bool, first string) int {
+	r.Eval(1)
+	conf := world.Conf{"simple_auth.key": key, "hls.enable": true, "hls.sub_session_hash_key": "k1", "simple_auth.hls_m3u8_enable": true}
+	if override {
+		conf["simple_auth.dangerous_lal_secret"] = "0v3rr1d3"
+	}
+	w := world.New(conf)
+	defer w.Close()
+	root := strings.TrimSuffix(w.FS.Root, "/")
+	for _, st := range []string{"a", "b"} {
+		w.FS.MkdirAll(root+"/"+st, 0o755)
+		w.FS.WriteFile(root+"/"+st+"/playlist.m3u8", []byte(playlist), 0o644)
+	}
+	fail := func(k, f string, a ...interface{}) {
+		r.Violation("hls-subsession/"+k, fmt.Sprintf("[override=%v first=%s] ", override, first)+fmt.Sprintf(f, a...), map[string]interface{}{"override": override, "first": first})
+	}
+	n := 0
+	get := func(uri string) *httptest.ResponseRecorder { n++; return hlsGet(w, uri, "10.9.9.9:1234") }
+	secret := func(st string) string { return md5hex(key + st) }
+	// 1. the authorised first request is redirected to a URL carrying a session_id
+	rec := get(first + "?lal_secret=" + secret("a"))
+	if rec == nil || rec.Code != http.StatusFound {
+		fail("no-redirect", "the authorised first request was answered %v, not with a redirect", rec)
+		return n
+	}
+	loc := rec.Header().Get("Location")
+	u, err := url.Parse(loc)
+	if err != nil || u.Query().Get("session_id") == "" {
+		fail("no-session-id", "redirect target %q carries no session_id", loc)
+		return n
+	}
+	sid := u.Query().Get("session_id")
+	// 2. following the redirect returns the playlist
+	// (in this mode lal appends the session_id to the segment URIs of the playlist it returns)
+	isPlaylist := func(rec *httptest.ResponseRecorder) bool {
+		return rec != nil && rec.Code == 200 && strings.HasPrefix(rec.Body.String(), "#EXTM3U") && strings.Contains(rec.Body.String(), "s-1-0.ts")
+	}
+	if rec := get(loc); !isPlaylist(rec) {
+		fail("rejected-authorised", "following the redirect (%s) did not return the playlist (status %d)", loc, rec.Code)
+	}
+	// 3. the session id with every form of secret, on the same and on another stream
+	for _, st := range []string{"a", "b"} {
+		for _, path := range []string{"/hls/" + st + ".m3u8", "/hls/" + st + "/playlist.m3u8"} {
+			forms := map[string]string{"absent": "", "empty": "&lal_secret=", "wrong": "&lal_secret=0123456789abcdef0123456789abcdef", "other-stream": "&lal_secret=" + secret(map[string]string{"a": "b", "b": "a"}[st]), "right": "&lal_secret=" + secret(st), "right-upper": "&lal_secret=" + strings.ToUpper(secret(st))}
+			if override {
+				forms["override"] = "&lal_secret=0v3rr1d3"
+			}
+			for name, q := range forms {
+				want := name == "right" || name == "right-upper" || name == "override"
+				rec := get(path + "?session_id=" + sid + q)
+				got := isPlaylist(rec)
+				r.Class(fmt.Sprintf("hls-subsession/%s/%s/admitted=%v", map[bool]string{true: "same-stream", false: "other-stream"}[st == "a"], name, got))
+				if got && !want {
+					fail("admitted-unauthorised", "GET %s?session_id=<id of a session on stream a>%s returned stream %s's playlist", path, q, st)
+				}
+				if !got && want {
+					fail("rejected-authorised", "GET %s?session_id=<id>%s (right secret for stream %s) was refused with status %d", path, q, st, rec.Code)
+				}
+				if !got && rec != nil && strings.Contains(rec.Body.String(), "#EXTM3U") {
+					fail("leak", "GET %s refused (status %d) but the playlist is in the body", path, rec.Code)
+				}
+			}
+		}
+	}
+	return n
 }
